@@ -165,6 +165,28 @@ func (h *History) pickSets(r *Rng) [][]*Ev {
 		sort.Slice(set, func(i, j int) bool { return set[i].ID < set[j].ID })
 		sets = append(sets, set)
 	}
+	// servers with partially merged views: some keys of a set are overridden by another branch's event for the
+	// same key (still one event per key); sometimes every set adopts the same event for a key (agreed key whose
+	// siblings survive in the auth chains)
+	if r.Chance(45) {
+		other := Pick(r, h.Branches)
+		for k, oe := range other.State {
+			if !r.Chance(25) {
+				continue
+			}
+			all := r.Chance(50)
+			for si := range sets {
+				if !all && !r.Chance(50) {
+					continue
+				}
+				for ei, e := range sets[si] {
+					if e.PDU.Type() == k.EventType && *e.PDU.StateKey() == k.StateKey {
+						sets[si][ei] = oe
+					}
+				}
+			}
+		}
+	}
 	return sets
 }
 
